@@ -78,8 +78,11 @@ def main():
             'level_note': ("Decides structural clauses only. NOT decided: " + ' | '.join(undec) +
                            " || Trusted base: CPython ast/re parsers; the checker's CFG/fault "
                            "models (M0 raise statements only; M1 awaits + hook calls; M2 anything "
-                           "may raise); closed-world assumptions A1-A5 of DESIGN.md section 1 "
-                           "(recorded in every evidence file)."),
+                           "may raise); the abstract evaluators (sa/absval, dictval, minieval) and "
+                           "the behaviour-preserving normalisation of the analysed AST towards "
+                           "the pinned tree's spelling (E12, DESIGN.md section 13); closed-world "
+                           "assumptions A1-A6 of DESIGN.md sections 1 and 13 (recorded in every "
+                           "evidence file)."),
         })
     man = {
         'version': 1,
